@@ -16,7 +16,9 @@ RULE = ("seeded random histories of Recv / Next / Start / Stop / Pause / Resume 
         "25% mixed types 10/15/19/20/25 and explicit post priorities) on one real MessagePassingComputation hosted on a real (unthreaded) "
         "Agent + Messaging; 70% of the histories end with Start, Resume and enough Next to drain; every 5th "
         "case is a fault history: the message sender raises on chosen posts (inside a resume flush and "
-        "outside) within pause/post/resume cycles followed by further resumes; "
+        "outside) within pause/post/resume cycles followed by further resumes; every 10th case has targets the "
+        "agent's discovery learns about only after the resume (>= 3 held messages, then a registration); "
+        "every 10th case runs a SynchronousComputationMixin computation paused before/after its start; "
         "non-trivial = at least one message was buffered on reception or on posting; distinct = distinct "
         "op list")
 MODELLED = ("start/stop/pause/on_message/post_msg and the agent queue are modelled (M_Lifecycle.v); theorems "
@@ -25,7 +27,9 @@ MODELLED = ("start/stop/pause/on_message/post_msg and the agent queue are modell
             "and no re-injection happens while re-injected messages still wait, handled++held++queued is "
             "the reception sequence (once, in order, before newer); each excluded case is refuted by a "
             "witness (two known findings). The theorems are about failure-free histories; a raising message "
-            "sender is modelled (frun, fail set as input) and covered by oracle + correspondence only. Real "
+            "sender is modelled (frun, fail set as input) and covered by oracle + correspondence only; the "
+            "synchronous mixin's posts across a pause and the delivery order to late-registered targets are "
+            "checked by the oracle only (ground truth computed from the case). Real "
             "threads are not involved (C18/C21).")
 META = dict(
     level_text=("Proof (Coq) over all histories of receptions, posts, starts, stops, pauses and resumes of a "
